@@ -314,6 +314,14 @@ pub(crate) fn crc0564_stub(slice: &[u8]) -> u16 {
     crc_stub(slice) ^ 0x5555
 }
 
+/// leave 0..=2 arbitrary stale bytes in the payload object (what the previous frame delivered)
+fn prefill(payload: &mut FramePayload) {
+    let stale: [u8; 2] = kani::any();
+    let n: usize = kani::any();
+    kani::assume(n <= 2);
+    assert!(payload.push(&stale[..n]).is_ok());
+}
+
 /// parse_body on exactly one frame body carrying N payload bytes, checksum abstracted
 fn body_framing<const N: usize, const T: usize>() {
     assert!(T == Parser::calc_trailer_length(N as u8));
@@ -321,6 +329,8 @@ fn body_framing<const N: usize, const T: usize>() {
     let bytes: [u8; T] = kani::any();
     let mut p = Parser::new(LinkErrorMode::Close);
     let mut payload = FramePayload::new();
+    // the payload object is reused from frame to frame: it may still hold the previous frame's bytes
+    prefill(&mut payload);
     let mut c = ReadCursor::new(&bytes);
     let r = p.parse_body(T, &mut c, &mut payload);
     // reference de-framing
@@ -416,6 +426,29 @@ fn roundtrip<const N: usize, const T: usize>() {
         }
         _ => panic!("a frame the library formats must parse back"),
     }
+}
+
+// @harness c06_body_empty_clears_payload
+// @props C06,C01
+// @tier quick
+// @timeout 300
+// @units Parser::parse_body (trailer length 0), FramePayload::{push, clear, get}
+// @bounds a header-only frame (no body) parsed into a payload object that still holds 0..=2 arbitrary bytes of the previous frame: the delivered payload is EMPTY, the parser returns to the sync search, nothing is consumed
+#[kani::proof]
+#[kani::unwind(6)]
+fn c06_body_empty_clears_payload() {
+    let mut p = Parser::new(if kani::any() { LinkErrorMode::Close } else { LinkErrorMode::Discard });
+    let h = Header::new(ControlField::from(kani::any()), AnyAddress::from(kani::any()), AnyAddress::from(kani::any()));
+    p.state = ParseState::ReadBody(h, 0);
+    let mut payload = FramePayload::new();
+    prefill(&mut payload);
+    let rest: [u8; 2] = kani::any();
+    let mut c = ReadCursor::new(&rest);
+    assert!(matches!(p.parse_body(0, &mut c, &mut payload), Ok(Some(()))));
+    assert!(payload.get().is_empty());
+    assert!(c.position() == 0);
+    assert!(matches!(p.state, ParseState::FindSync1));
+    kani::cover!(true);
 }
 
 // @harness c06_format_header_matches_reference
